@@ -326,7 +326,7 @@ def main():
     nruns += cli_runs(chk, cfg_cache, ref_cache)
     # a direction sweep (only wind_dir varies from step to step) and a series with repeated records, cache off
     for kind, cfgs in (("sweep", make_config(2, 3, sweep=True)), ("repeated", make_config(2, 3, repeated_met=True)), ("no timestamps", make_config(2, 3, timestamps=False)),
-                       ("five steps in no sorted order", make_config(1, 5, sweep=True))):
+                       ("five steps in no sorted order", make_config(1, 5, sweep=True)), ("levels below the top node", make_config(2, 3, levels=[1, 3]))):
         rtcfg.NUM_THREADS = 1
         refs_s = references(cfgs)
         for strat in ("serial", "towers", "time", "both"):
